@@ -4,22 +4,22 @@
 # runs the property's check and undoes it.
 export GOFLAGS=-mod=mod GOPROXY=off GOSUMDB=off GOTOOLCHAIN=local
 ID=$1; WT=$2; PKG=$3; shift 3
-OUT=/verif/seeded/$ID; mkdir -p $OUT
+OUT=/verif/seeded/$ID$SFX; mkdir -p $OUT   # SFX: suffix for a further change to the same property
 cd $WT || exit 9
-git diff -- . > /tmp/seed_$ID.diff   # source change only (demo is untracked)
-[ -s /tmp/seed_$ID.diff ] || cp patch.diff /tmp/seed_$ID.diff
+git diff -- . > /tmp/seed_$ID$SFX.diff   # source change only (demo is untracked)
+[ -s /tmp/seed_$ID$SFX.diff ] || cp patch.diff /tmp/seed_$ID$SFX.diff
 echo "== demo WITH change"; timeout 120 go test -vet=off -count=1 -timeout 30s -run 'TestDemo|Demo' ./$PKG/ > /tmp/seed_with.log 2>&1; W=$?; tail -3 /tmp/seed_with.log
 git stash -q
 echo "== demo WITHOUT change"; timeout 120 go test -vet=off -count=1 -timeout 30s -run 'TestDemo|Demo' ./$PKG/ > /tmp/seed_without.log 2>&1; WO=$?; tail -2 /tmp/seed_without.log
 echo "== existing suite WITH change (demo moved away)"
 git stash pop -q
-mkdir -p /tmp/seed_demo_$ID; find . -name zz_demo_test.go -exec mv {} /tmp/seed_demo_$ID/ \;
+mkdir -p /tmp/seed_demo_$ID$SFX; find . -name zz_demo_test.go -exec mv {} /tmp/seed_demo_$ID$SFX/ \;
 go build ./... && go test -vet=off -count=1 ./... > /tmp/seed_suite.log 2>&1; S=$?; grep -v "no test files" /tmp/seed_suite.log | grep -v "^ok" | head -5
-cp /tmp/seed_demo_$ID/zz_demo_test.go $WT/$PKG/ 2>/dev/null
-cp /tmp/seed_$ID.diff $OUT/patch.diff; cp /tmp/seed_demo_$ID/zz_demo_test.go $OUT/demo_test.go
+cp /tmp/seed_demo_$ID$SFX/zz_demo_test.go $WT/$PKG/ 2>/dev/null
+cp /tmp/seed_$ID$SFX.diff $OUT/patch.diff; cp /tmp/seed_demo_$ID$SFX/zz_demo_test.go $OUT/demo_test.go
 echo "demo_with_exit=$W demo_without_exit=$WO suite_exit=$S"
 cd /repo && git apply $OUT/patch.diff || { echo "PATCH DOES NOT APPLY"; exit 8; }
-cd /verif && timeout 2400 ./bin/verif check $ID "$@" > /tmp/seed_check_$ID.log 2>&1; C=$?
+cd /verif && timeout 2400 ./bin/verif check $ID "$@" > /tmp/seed_check_$ID$SFX.log 2>&1; C=$?
 git -C /repo checkout -- .
-echo "check_exit=$C"; grep -c "^VIOLATION" /tmp/seed_check_$ID.log; grep "violation:" /tmp/seed_check_$ID.log | sed 's/| input.*| native/| native/' | cut -c1-260 | sort | uniq -c | head -5; tail -2 /tmp/seed_check_$ID.log | cut -c1-250
+echo "check_exit=$C"; grep -c "^VIOLATION" /tmp/seed_check_$ID$SFX.log; grep "violation:" /tmp/seed_check_$ID$SFX.log | sed 's/| input.*| native/| native/' | cut -c1-260 | sort | uniq -c | head -5; tail -2 /tmp/seed_check_$ID$SFX.log | cut -c1-250
 echo "{\"with\":$W,\"without\":$WO,\"suite\":$S,\"check_exit\":$C}" > $OUT/result.json
